@@ -122,6 +122,8 @@ func driveOps(c *Ctx) error {
 			sort.Slice(out, func(i, k int) bool { return jsonKey(out[i]) < jsonKey(out[k]) })
 			return out
 		}
+		pa0 := projectArgs(a0) // the operands as they report before any call is made on them
+		ia := digestOf(pa0)
 		rs := collect(reps*2, func(int) []cty.Value { return a0 })
 		rr := collect(reps, func(i int) []cty.Value { return concretizeArgs(aj, i) })
 		// mixed representations: every operand in a different one
@@ -132,8 +134,6 @@ func driveOps(c *Ctx) error {
 			}
 			return out
 		})
-		pa0 := projectArgs(a0)
-		ia := digestOf(pa0)
 		ev := J{"ev": "call", "api": api, "x": x, "a": pa0, "r": run(api, a0, x), "rs": rs, "rr": rr, "rm": rm}
 		ev["ia"], ev["ia2"] = ia, digestOf(projectArgs(a0))
 		// per representation: the largest mantissa precision among number operands, and the outcome
